@@ -164,7 +164,7 @@ class Encoder:
         elif k in ("uint", "byte", "utf8"):
             w = layout.width(spec)
             cast = spec[2] if k == "uint" else "trunc"
-            n = int(v)
+            n = v["fint"] if isinstance(v, dict) else int(v)
             if cast == "sat":
                 n = max(0, min((1 << w) - 1, n))
             else:
@@ -172,7 +172,7 @@ class Encoder:
             self.put(n, w)
         elif k == "int":
             w = spec[1]
-            n = max(-(1 << (w - 1)), min((1 << (w - 1)) - 1, int(v)))
+            n = max(-(1 << (w - 1)), min((1 << (w - 1)) - 1, v["fint"] if isinstance(v, dict) else int(v)))
             self.put(n & ((1 << w) - 1), w)
         elif k == "float":
             pattern, is_nan = encode_float(v, spec[1], spec[2])
@@ -445,7 +445,7 @@ def to_python(spec: typing.Any, v: typing.Any) -> typing.Any:
     if k == "float":
         return f64_from_bits(v["f"]) if isinstance(v, dict) else v
     if k in ("bool", "uint", "int", "byte", "utf8"):
-        return v
+        return float(v["fint"]) if isinstance(v, dict) and "fint" in v else v
     if k in ("fixed", "var"):
         if isinstance(v, str):
             return v
